@@ -349,9 +349,14 @@ def load_known():
     return known, fixed
 
 
+# each check verifies its units in its own directory (build/units-<property>/<unit>), so that two checks that share a unit can run
+# at the same time without writing over each other's generated text and solver logs
+UNIT_SCOPE = ""
+
+
 def run_unit(unit, tier, seed):
     name = unit["name"]
-    workdir = os.path.join(BUILD, name)
+    workdir = os.path.join(BUILD, "units-" + UNIT_SCOPE, name) if UNIT_SCOPE else os.path.join(BUILD, name)
     shutil.rmtree(workdir, ignore_errors=True)
     os.makedirs(workdir)
     t0 = time.time()
